@@ -33,8 +33,12 @@ def gen_history(rng, spec, length, populate=True):
         if rng.random() < 0.15 and hs:
             hs.append(rng.choice(hs))                         # all_hosts() never repeats a host; the policies tolerate it
         hist.append(['P', hs, rng.randint(0, len(hs) - 1) if hs else 0])
+        if rng.random() < 0.3:
+            # Cluster.connect populates the legacy policy twice (profile manager, then directly) with the same hosts
+            hist.append(['P', list(hs), rng.randint(0, len(hs) - 1) if hs else 0])
     dcs = list(spec['dcs'])
-    while len(hist) < length + (1 if populate else 0):
+    npop = len(hist)
+    while len(hist) < length + npop:
         h = rng.randrange(n)
         r = rng.random()
         if r < 0.25:
